@@ -292,6 +292,8 @@ class GlobInit(Contract):
                 pyvc.truthy(c.st.fields['negateall']) == has(f1(), 'NEGATEALL'), pyvc.truthy(c.st.fields['pathlib']) == ((f1() & bv(GL['_PATHLIB'])) != bv(0)),
                 pyvc.truthy(c.st.fields['scandotdir']) == ((f1() & bv(GL['SCANDOTDIR'])) != bv(0))))),
             ('Glob.__init__.returns_only_if_root_and_pattern_types_agree', ('C18', 'C12'), guard(lambda c: z3.Or(me.root_none, me.root_bytes == me.pat_bytes))),
+            ('Glob.__init__.root_dir_is_kept_as_given_(os.fspath_of_it,_or_the_current_directory)_-_no_lexical_rewriting', ('C12',),
+             guard(lambda c: pyvc.eq(c.st.fields['root_dir'], pyvc.ObjV(z3.If(me.root_none, pyvc.to_obj(c.st.fields['current']), U('fn.os.fspath', c.p['root_dir'].a['inner']).t))))),
             ('Glob.__init__.limit_state_initialised_(current_limit=limit,total=0)_before_inclusions_then_exclusions_with_force_negate', ('C11',), guard(lambda c: me.calls_ok(c))),
         ]
         return out
